@@ -278,6 +278,15 @@ func copyFile(src, dstDir string) (string, error) {
 		return "", err
 	}
 	dst := filepath.Join(dstDir, filepath.Base(src))
+	// a local parent pom travels with the manifest
+	if pb, err := os.ReadFile(filepath.Join(filepath.Dir(src), "parent", "pom.xml")); err == nil {
+		if err := os.MkdirAll(filepath.Join(dstDir, "parent"), 0o755); err != nil {
+			return "", err
+		}
+		if err := os.WriteFile(filepath.Join(dstDir, "parent", "pom.xml"), pb, 0o644); err != nil {
+			return "", err
+		}
+	}
 	return dst, os.WriteFile(dst, b, 0o644)
 }
 
